@@ -280,7 +280,7 @@ func (s *BooleanSearcher) Next(ctx *search.SearchContext) (*search.DocumentMatch
 					return nil, err
 				}
 				break
-			} else if s.shouldSearcher.Min() == 0 {
+			} else if s.shouldSearcher.Min() <= 0 {
 				// match is OK anyway
 				cons := s.matches[0:1]
 				cons[0] = s.currMust
@@ -308,7 +308,7 @@ func (s *BooleanSearcher) Next(ctx *search.SearchContext) (*search.DocumentMatch
 				return nil, err
 			}
 			break
-		} else if s.shouldSearcher == nil || s.shouldSearcher.Min() == 0 {
+		} else if s.shouldSearcher == nil || s.shouldSearcher.Min() <= 0 {
 			// match is OK anyway
 			cons := s.matches[0:1]
 			cons[0] = s.currMust
